@@ -116,6 +116,14 @@ func (f *Formatter) formatFullDocument(frontmatter, body string) (string, error)
 // context nodes to avoid being stripped by the HTML5 parser.
 func fragmentContext(body string) *html.Node {
 	trimmed := strings.TrimSpace(body)
+	// Comments in front of the first element do not decide the context
+	for strings.HasPrefix(trimmed, "<!--") {
+		end := strings.Index(trimmed, "-->")
+		if end < 0 {
+			break
+		}
+		trimmed = strings.TrimSpace(trimmed[end+3:])
+	}
 
 	type contextMapping struct {
 		prefix   string
@@ -238,10 +246,29 @@ func (f *Formatter) formatNode(n *html.Node, buf *strings.Builder, depth int) {
 			return
 		}
 
+		// Other raw-text elements - their content is not markup for the parser: copy it verbatim
+		if isVerbatimElement(n.Data) {
+			buf.WriteString(indent)
+			buf.WriteString(f.renderOpenTag(n))
+			for c := n.FirstChild; c != nil; c = c.NextSibling {
+				if c.Type == html.TextNode {
+					buf.WriteString(c.Data)
+				}
+			}
+			buf.WriteString(f.renderCloseTag(n))
+			buf.WriteString("\n")
+			return
+		}
+
 		// Pre blocks - preserve content whitespace and escape entities
 		if n.Data == "pre" {
 			buf.WriteString(indent)
 			buf.WriteString(f.renderOpenTag(n))
+			// The parser drops one newline that directly follows <pre>: content that starts with
+			// a newline keeps it only if another one is written in front
+			if c := n.FirstChild; c != nil && c.Type == html.TextNode && strings.HasPrefix(c.Data, "\n") {
+				buf.WriteString("\n")
+			}
 			f.renderPreContent(n, buf)
 			buf.WriteString(f.renderCloseTag(n))
 			buf.WriteString("\n")
@@ -298,6 +325,16 @@ func (f *Formatter) formatNode(n *html.Node, buf *strings.Builder, depth int) {
 		buf.WriteString(n.Data)
 		buf.WriteString("-->\n")
 	}
+}
+
+// isVerbatimElement reports the elements, other than script and style, whose content the parser
+// reads as raw text.
+func isVerbatimElement(tag string) bool {
+	switch tag {
+	case "xmp", "iframe", "noembed", "noframes", "noscript", "plaintext":
+		return true
+	}
+	return false
 }
 
 // formatRawTextElement formats script/style elements preserving their content.
